@@ -19,6 +19,11 @@ def hx(s):
     return s.encode().hex() if s else '-'
 
 
+def verif_count_lines(*paths):
+    """the function the generated PythonJobs call (never executed: only its source and its arguments are submitted)"""
+    return len(paths)
+
+
 class FakeJob:
     def __init__(self, idx, kw):
         self.idx = idx
@@ -55,8 +60,19 @@ class FakeClient:
 
 
 class FakeFs:
+    """the remote file system PythonJob._compile uploads its pickled function / arguments to"""
+
+    def __init__(self):
+        self.written = []
+
     async def close(self):
         return None
+
+    async def makedirs(self, url, exist_ok=False):
+        return None
+
+    async def write(self, url, data):
+        self.written.append(url)
 
 
 K_DIGIT = 'C18:reference-followed-by-digit'
@@ -80,15 +96,16 @@ class C18(Prop):
                   'a child of the producer. Three full statements are refuted on witnesses found on the unchanged tree (reference followed by '
                   'a digit; two files of an input group with the same basename; add_extension after the resource was mentioned) and proved '
                   'under the excluding hypotheses. The model is tied to the real code by differential runs of generated pipelines on every run.')
-    level_note = ('Trusted: Lean kernel; the hand-written model covers the BashJob subset of the DSL (no PythonJob, no cloudfuse, inputs by URL) '
-                  'and agrees with the real classes only as far as the correspondence cases show; what the worker does with input_files / '
+    level_note = ('Trusted: Lean kernel; the hand-written model covers the BashJob subset of the DSL (no cloudfuse, inputs by URL) '
+                  'plus PythonJob.call with resource arguments (its PythonResult and pickled code files are not modelled) and agrees with the real classes only as far as the correspondence cases show; what the worker does with input_files / '
                   'output_files is C22/C23; shell execution of the command is not modelled.')
     budget = {'quick': 1500, 'thorough': 25000}
     search_budget = {'quick': 3000, 'thorough': 20000}
     rule = ('case = a DSL program: read_input / read_input_group (1-3 files), 1-4 bash jobs (names: none, short, equal, 240-260 characters, '
             'with characters safe_str rewrites) with optional declare_resource_group, 1-2 commands '
             'each built from text fragments and references (inputs, group members, own and earlier jobs\' resources, whole groups), '
-            'add_extension, write_output; executed on the real classes, then ServiceBackend._async_run with a recording client; compared per '
+            'PythonJobs calling a function with resource arguments; single-member references of job-declared groups (bash and python) are '
+            'frequent; add_extension, write_output; executed on the real classes, then ServiceBackend._async_run with a recording client; compared per '
             'job: interpolated commands, input_files, output_files, parents, input-group symlinks (sets sorted, tmpdirs canonicalised); '
             'non-trivial = at least one job consumes another job\'s resource; distinct by full case')
     trusted = ['fake aioclient Batch/BatchClient recording create_job kwargs', 'deterministic secret_alnum_string ("tk<n>") and uuid4',
@@ -139,6 +156,31 @@ class C18(Prop):
             return long_name[:rng.choice([200, 243, 246])] + rng.choice(['', 'x', '/y'])
         return rng.choice(self.NAMES)                          # short, often equal, some with characters safe_str rewrites
 
+    def _foreign_ref(self, rng, j, jobs, handles, inputs=True):
+        """a reference job j makes to something it does not own: an earlier job's resource (file, whole declared group, or —
+        most often when there is a group — a SINGLE member of it) or an input"""
+        if inputs and handles and rng.random() < 0.25:
+            k = rng.randrange(len(handles))
+            if handles[k][0] == 'group' and rng.random() < 0.6:
+                return ['m', k, rng.choice(handles[k][1])]
+            return ['h', k]
+        p = rng.randrange(j)
+        groups = sorted(a for a, k in jobs[p]['attrs'].items() if k != 'file' and a in jobs[p]['valid'])
+        if groups and rng.random() < 0.6:
+            a = rng.choice(groups)
+            if rng.random() < 0.7:
+                return ['b', p, a, rng.choice(jobs[p]['attrs'][a][1])]       # one member only
+            return ['a', p, a]
+        pool = sorted(jobs[p]['valid']) if rng.random() < 0.95 else self.ATTRS
+        if not pool:
+            return None
+        a = rng.choice(pool)
+        kind = jobs[p]['attrs'].get(a, 'file')
+        if kind != 'file' and rng.random() < 0.5:
+            return ['b', p, a, rng.choice(kind[1])]
+        jobs[p]['attrs'].setdefault(a, 'file')
+        return ['a', p, a]
+
     def _random_case(self, rng):
         prog = []
         handles = []          # ('file',) | ('group', idents)
@@ -166,8 +208,19 @@ class C18(Prop):
         jobs = []             # per job: dict(attrs={name: 'file'|('group', idents)}, valid=set(names), ext=set())
         for j in range(njobs):
             name = self._job_name(rng, long_name)
-            prog.append({'op': 'job', 'name': name})
             info = {'attrs': {}, 'valid': set(), 'ext': set()}
+            if j > 0 and rng.random() < 0.2:
+                # a PythonJob whose call gets resources of earlier jobs / inputs as arguments
+                prog.append({'op': 'pyjob', 'name': name})
+                jobs.append(info)
+                args = []
+                for _ in range(rng.choice([1, 1, 2, 3])):
+                    ref = self._foreign_ref(rng, j, jobs, handles)
+                    if ref is not None:
+                        args.append(ref)
+                prog.append({'op': 'pycall', 'j': j, 'args': args})
+                continue
+            prog.append({'op': 'job', 'name': name})
             jobs.append(info)
             if rng.random() < 0.35:
                 gname = rng.choice(['out', 'tmp1', 'grp'])
@@ -195,16 +248,7 @@ class C18(Prop):
                         else:
                             ref = ['h', k]
                     elif r < 0.6 and j > 0:
-                        p = rng.randrange(j)
-                        pool = sorted(jobs[p]['valid']) if rng.random() < 0.95 else self.ATTRS
-                        if pool:
-                            a = rng.choice(pool)
-                            kind = jobs[p]['attrs'].get(a, 'file')
-                            if kind != 'file' and rng.random() < 0.5:
-                                ref = ['b', p, a, rng.choice(kind[1])]
-                            else:
-                                ref = ['a', p, a]
-                                jobs[p]['attrs'].setdefault(a, 'file')
+                        ref = self._foreign_ref(rng, j, jobs, handles, inputs=False)
                     if ref is None:
                         a = rng.choice(self.ATTRS + sorted(info['attrs']))
                         kind = info['attrs'].get(a, 'file')
@@ -284,6 +328,10 @@ class C18(Prop):
                 out.append(f"E {s['j']} {hx(s['name'])} {hx(s['ext'])}")
             elif op == 'out':
                 out.append(f"W {self._ref_tok(s['ref'])} {hx(s['dest'])}")
+            elif op == 'pyjob':
+                out.append(f"P {hx(s['name']) if s['name'] else '-'}")
+            elif op == 'pycall':
+                out.append(f"Y {s['j']} " + ' '.join(self._ref_tok(r) for r in s['args']))
         return [' ; '.join(out)]
 
     # ------------------------------------------------------------------------------------------ real side
@@ -351,7 +399,7 @@ class C18(Prop):
             with warnings.catch_warnings():
                 warnings.simplefilter('ignore')
                 try:
-                    b = hb.Batch(backend=be, name='verif')
+                    b = hb.Batch(backend=be, name='verif', default_python_image='hailgenetics/python-dill:3.11-slim')
                     for s in c['prog']:
                         op = s['op']
                         if op == 'input':
@@ -360,6 +408,13 @@ class C18(Prop):
                             env['handles'].append(b.read_input_group(**{i: p for i, p in s['files']}))
                         elif op == 'job':
                             env['jobs'].append(b.new_job(name=s['name']))
+                        elif op == 'pyjob':
+                            env['jobs'].append(b.new_python_job(name=s['name']))
+                        elif op == 'pycall':
+                            j = env['jobs'][s['j']]
+                            args = [self._resolve(env, r) for r in s['args']]
+                            mentions.append((s['j'], None, [('r', a) for a in args]))
+                            j.call(verif_count_lines, *args)
                         elif op == 'rgroup':
                             env['jobs'][s['j']].declare_resource_group(**{s['gname']: {i: t for i, t in s['files']}})
                         elif op == 'cmd':
@@ -419,8 +474,13 @@ class C18(Prop):
                     for part in line.split('; '):
                         a = shlex.split(part)
                         syms.append((a[2], a[3]))
-            jobs.append({'cmds': list(j._command), 'cmd': cmd, 'in': [tuple(x) for x in (kw.get('input_files') or [])],
-                         'out': [tuple(x) for x in (kw.get('output_files') or [])], 'par': parents, 'sym': syms})
+            ins = [tuple(x) for x in (kw.get('input_files') or [])]
+            # the pickled function / argument files a PythonJob reads are uploaded by the client itself, not by a job
+            code_in = [x for x in ins if x[0].startswith(remote + '/') and x[0].endswith('.p') and
+                       ('/functions/code' in x[0] or '/args/code' in x[0])]
+            jobs.append({'cmds': list(getattr(j, '_command', [])), 'cmd': cmd, 'in': [x for x in ins if x not in code_in], 'code_in': code_in,
+                         'out': [tuple(x) for x in (kw.get('output_files') or [])], 'par': parents, 'sym': syms,
+                         'python': not hasattr(j, '_command')})
         return {'status': 'ok', 'jobs': jobs, 'xin': xin, 'canon': canon, 'env': env, 'mentions': mentions, 'outs': out_stmts, 'batch': b,
                 'local': local, 'remote': remote}
 
@@ -455,6 +515,8 @@ class C18(Prop):
             return [res]
         # (1) every reference is replaced by its quoted local path and nothing else changes
         for (ji, ci, pieces) in r['mentions']:
+            if ci is None:
+                continue                     # PythonJob.call: no command text
             expected = ''.join(p[1] if p[0] == 't' else '${BATCH_TMPDIR}' + shlex.quote(p[1]._get_path('')) for p in pieces)
             actual = jobs[ji]['cmds'][ci] if ci < len(jobs[ji]['cmds']) else None
             if actual != expected:
@@ -485,6 +547,19 @@ class C18(Prop):
                             return ('plan', f'job {ji} downloads {f} from {a} but job {pi} does not upload it there (uploads: {jobs[pi]["out"]})')
                     if pi not in jobs[ji]['par']:
                         return ('plan', f'job {ji} consumes {f} of job {pi} but is not submitted as its child (parents {jobs[ji]["par"]})')
+        # the clause on the submitted specs themselves: whatever a job downloads from the batch's internal (remote tmpdir)
+        # location must be uploaded to exactly that location by a job it is submitted as a child of
+        for ci, cj in enumerate(jobs):
+            for src, dst in cj['in']:
+                if not src.startswith(remote + '/'):
+                    continue
+                producers = [pi for pi, pj in enumerate(jobs) if pi != ci and (dst, src) in pj['out']]
+                if not producers:
+                    anywhere = [(pi, a) for pi, pj in enumerate(jobs) for a, b in pj['out'] if b == src]
+                    return ('plan', f'job {ci} downloads {src} -> {dst} but no other job uploads {dst} to that location '
+                                    f'(uploads to it: {anywhere})')
+                if not any(pi in cj['par'] for pi in producers):
+                    return ('plan', f'job {ci} downloads {src}, uploaded by job(s) {producers}, but is not their child (parents {cj["par"]})')
         # external outputs
         for res, dest in r['outs']:
             for f in files_of(res):
@@ -524,14 +599,14 @@ class C18(Prop):
                 handles.append(None)
             elif op == 'igroup':
                 handles.append([i for i, _ in s['files']])
-            elif op == 'job':
+            elif op in ('job', 'pyjob'):
                 jobs.append({'groups': {}, 'valid': set(), 'ext': set(), 'attrs': set()})
             elif op == 'rgroup':
                 jobs[s['j']]['groups'][s['gname']] = [i for i, _ in s['files']]
                 jobs[s['j']]['valid'].add(s['gname'])
                 jobs[s['j']]['attrs'].add(s['gname'])
-            elif op == 'cmd':
-                for p in s['pieces']:
+            elif op in ('cmd', 'pycall'):
+                for p in (s['pieces'] if op == 'cmd' else s['args']):
                     if p[0] == 'm' and p[2] not in (handles[p[1]] or []):
                         return True
                     if p[0] in ('a', 'b'):
@@ -577,17 +652,17 @@ class C18(Prop):
                 handles.append('file')
             elif op == 'igroup':
                 handles.append('group')
-            elif op == 'job':
-                jobs.append({'groups': set(), 'attrs': set()})
+            elif op in ('job', 'pyjob'):
+                jobs.append({'groups': set(), 'attrs': set(), 'python': op == 'pyjob'})
             elif op == 'rgroup':
-                if s['j'] >= len(jobs) or s['gname'] in jobs[s['j']]['attrs']:
+                if s['j'] >= len(jobs) or jobs[s['j']]['python'] or s['gname'] in jobs[s['j']]['attrs']:
                     return True
                 jobs[s['j']]['groups'].add(s['gname'])
                 jobs[s['j']]['attrs'].add(s['gname'])
-            elif op == 'cmd':
-                if s['j'] >= len(jobs):
+            elif op in ('cmd', 'pycall'):
+                if s['j'] >= len(jobs) or jobs[s['j']]['python'] != (op == 'pycall'):
                     return True
-                for p in s['pieces']:
+                for p in (s['pieces'] if op == 'cmd' else s['args']):
                     if p[0] != 't' and bad_ref(p):
                         return True
             elif op == 'ext':
@@ -609,17 +684,21 @@ class C18(Prop):
     def classify(self, c, impl_out):
         line = impl_out[0]
         prog = c['prog']
-        njobs = sum(1 for s in prog if s['op'] == 'job')
+        njobs = sum(1 for s in prog if s['op'] in ('job', 'pyjob'))
         tags = ['res=' + (line.split(' ')[1] if line.startswith('err') else 'ok'), f'jobs={njobs}']
         cross = 0
+        groups_whole, member_only = set(), set()
         for s in prog:
-            if s['op'] == 'cmd':
-                for p in s['pieces']:
+            if s['op'] in ('cmd', 'pycall'):
+                for p in (s['pieces'] if s['op'] == 'cmd' else s['args']):
                     if p[0] in ('a', 'b') and p[1] != s['j']:
                         cross += 1
-            if s['op'] in ('igroup', 'rgroup', 'ext', 'out'):
+                        (member_only if p[0] == 'b' else groups_whole).add((p[1], p[2]))
+            if s['op'] in ('igroup', 'rgroup', 'ext', 'out', 'pycall'):
                 tags.append('has-' + s['op'])
-        names = [s['name'] for s in prog if s['op'] == 'job']
+        if member_only - groups_whole:
+            tags.append('has-member-only-reference')
+        names = [s['name'] for s in prog if s['op'] in ('job', 'pyjob')]
         if any(n and len(n) >= 240 for n in names):
             tags.append('has-long-job-name')
         named = [n for n in names if n]
@@ -669,8 +748,9 @@ class C18(Prop):
         for i, s in enumerate(list(prog)):
             if s['op'] != 'ext':
                 continue
-            first = next((k for k, t in enumerate(prog) if t['op'] in ('cmd', 'out') and any(
-                p[0] in ('a', 'b') and p[1] == s['j'] and p[2] == s['name'] for p in (t['pieces'] if t['op'] == 'cmd' else [t['ref']]))), None)
+            first = next((k for k, t in enumerate(prog) if t['op'] in ('cmd', 'out', 'pycall') and any(
+                p[0] in ('a', 'b') and p[1] == s['j'] and p[2] == s['name']
+                for p in (t['pieces'] if t['op'] == 'cmd' else t['args'] if t['op'] == 'pycall' else [t['ref']]))), None)
             pos = prog.index(s)
             if first is not None and first < pos:
                 prog.remove(s)
@@ -702,11 +782,15 @@ class C18(Prop):
             changed = False
             cands = []
             for i, s in enumerate(cur['prog']):
-                if s['op'] != 'job':
+                if s['op'] not in ('job', 'pyjob'):
                     cands.append({'prog': cur['prog'][:i] + cur['prog'][i + 1:]})
                 if s['op'] == 'cmd' and len(s['pieces']) > 1:
                     for k in range(len(s['pieces'])):
                         s2 = {**s, 'pieces': s['pieces'][:k] + s['pieces'][k + 1:]}
+                        cands.append({'prog': cur['prog'][:i] + [s2] + cur['prog'][i + 1:]})
+                if s['op'] == 'pycall' and len(s['args']) > 1:
+                    for k in range(len(s['args'])):
+                        s2 = {**s, 'args': s['args'][:k] + s['args'][k + 1:]}
                         cands.append({'prog': cur['prog'][:i] + [s2] + cur['prog'][i + 1:]})
                 if s['op'] == 'igroup' and len(s['files']) > 1:
                     for k in range(len(s['files'])):
